@@ -581,6 +581,12 @@ func (env *SpecEnv) storeGet(sd *StoreDecl, ks []SV) SV {
 	}
 	vs := g.SortOf(vt)
 	un := unmarshalFun(g, vs)
+	if sd.KeyField != "" && len(ks) == 1 && !strings.Contains(raw, "!q") && !strings.Contains(raw, "!p") {
+		// ground read: instance of the store's key-field invariant (see Enc.keyInv)
+		if inv := env.e.keyInv(sd.KV, env.storeKey(sd, ks), raw); inv != "" {
+			env.e.r.assume(inv)
+		}
+	}
 	return SV{t: fmt.Sprintf("(%s %s)", un, raw), sort: vs, gt: vt}
 }
 
